@@ -7,12 +7,14 @@ import (
 	"io"
 	"os"
 	"path/filepath"
+	"reflect"
 	"runtime"
 	"strings"
 	"time"
 
 	"github.com/llir/llvm/asm"
 	"github.com/llir/llvm/ir"
+	"github.com/llir/llvm/ir/types"
 	"github.com/llir/llvm/zzsim/simrt"
 )
 
@@ -317,6 +319,51 @@ func doPrior(p Prior, idx int) {
 					g.SetName(fmt.Sprintf("scribbleg%d", i))
 					g.Init = nil
 				}
+				// Types too: a type object must not be shared between two parses
+				// (the package-level singletons excepted).
+				sing := singletons()
+				seen := map[types.Type]bool{}
+				var scribble func(t types.Type, depth int)
+				scribble = func(t types.Type, depth int) {
+					if t == nil || seen[t] || depth > 3 {
+						return
+					}
+					seen[t] = true
+					if v := reflect.ValueOf(t); v.Kind() == reflect.Ptr {
+						if _, isSing := sing[v.Pointer()]; isSing {
+							return
+						}
+					}
+					t.SetName(fmt.Sprintf("scribbled%d", len(seen)))
+					switch t := t.(type) {
+					case *types.PointerType:
+						scribble(t.ElemType, depth+1)
+					case *types.ArrayType:
+						scribble(t.ElemType, depth+1)
+					case *types.StructType:
+						for _, f := range t.Fields {
+							scribble(f, depth+1)
+						}
+					case *types.FuncType:
+						scribble(t.RetType, depth+1)
+						for _, p := range t.Params {
+							scribble(p, depth+1)
+						}
+					}
+				}
+				for _, t := range m.TypeDefs {
+					scribble(t, 0)
+				}
+				for _, g := range m.Globals {
+					scribble(g.ContentType, 0)
+					scribble(g.Typ, 0)
+				}
+				for _, f := range m.Funcs {
+					scribble(f.Sig, 0)
+				}
+				for _, md := range m.MetadataDefs {
+					md.SetID(987)
+				}
 				m.TypeDefs = nil
 				m.MetadataDefs = nil
 				for k := range m.NamedMetadataDefs {
@@ -516,7 +563,7 @@ func c12GenScenario(r *rng, all []corpusFile, concurrent bool, lex int) *C12Scen
 	if r.chance(1, 3) {
 		sc.Canary = "verif:order/metadata.ll"
 	}
-	tp := TapeParams{NPerm: 4096, NClock: 64}
+	tp := TapeParams{NPerm: 4096, NClock: 64, NPool: 256}
 	if concurrent {
 		tp.NSched = 2048
 		tp.MeanGap = []int{3, 10, 50, 300, 3000, 30000}[r.intn(6)]
@@ -581,6 +628,11 @@ func c12Search() {
 		sum.Counters["clock reads"] += s.ClockReads
 		sum.Counters["clock reads that went backwards"] += s.ClockBackwards
 		sum.Counters["reader faults fired"] += int64(o.readerFaults)
+		if s.PoolGets > 0 {
+			sum.Counters["sync.Pool gets under simulator control"] += s.PoolGets
+			sum.Counters["sync.Pool gets that reused an object of an earlier parse"] += s.PoolReuses
+			sum.Counters["sync.Pool gets after a simulated GC"] += s.PoolDrops
+		}
 		sum.Counters["context switches"] += s.Switches
 		sum.Counters["statements executed under the scheduler"] += s.Steps
 		if sc.HeapKB > 0 {
@@ -709,6 +761,11 @@ func c12Candidates(raw json.RawMessage) []interface{} {
 	if len(sc.Tape.Clocks) > 0 {
 		c := clone()
 		c.Tape.Clocks = nil
+		out = append(out, c)
+	}
+	if len(sc.Tape.Pools) > 0 {
+		c := clone()
+		c.Tape.Pools = nil
 		out = append(out, c)
 	}
 	for _, g := range shrinkStream(sc.Tape.Perms) {
